@@ -381,7 +381,7 @@ def check_activation(ctx, F):
                         seq.append("exit")
                     elif cf["name"] == "deepEnter":
                         seq.append("enter")
-                    elif cf["name"] == "clear" and ev[3] is not None and ev[3].endswith(".registry"):
+                    elif cf["name"] == "clear" and (cf.get("cls") == "RegistryT" or (ev[3] is not None and ev[3].endswith(".registry"))):
                         seq.append("clear")
             if seq != want:
                 bad = seq
